@@ -13,8 +13,11 @@ Decided (structural bookkeeping, every ingest history):
  R4 K1+K6 rejection path (shared with C06-R7): a fresh perspective left empty by a rejected command is
         un-installed, and the in-flight perspective is dropped only on the `includes(parent) == false`
         edge - otherwise accepted tips vanish from the committed head set.
+ R5 K2  duplicate detection (shared with C01-R6): Transaction::locate reports a command absent only after
+        searching the committed graph and every transaction tip - a committed command that is not found is
+        ingested a second time and its id enters the head set although it has committed descendants.
 Not decided: that this bookkeeping equals the true frontier for every history (value-level)."""
-from rules.core import pat
+from rules.core import pat, rt
 from rules.core.facts import Operand, PASS_THROUGH, Place
 
 CRATES = ["aranya_runtime"]
@@ -139,3 +142,4 @@ def run(F, rep, tier):
               "Transaction::commit builds the committed HeadSet from self.heads only through HeadSet::push", site=cm.site())
     from rules.props import C06 as _c06
     _c06.check_install_fill(F, rep)
+    rt.rule_locate(F, rep)
